@@ -42,6 +42,9 @@ CHECKS["C13"] = dict(technique="definitional round-trip oracle at the process bo
 CHECKS["C09"] = dict(technique="differential runtime monitor with per-step structured state probes (existence, set-ness, attribute set, sorted key/value pairs, child-environment view) over generated action sequences; readonly invariance checked on brush's own probe stream",
    text="Random sequences of 2-8 top-level actions over 22 kinds (assignment, +=, array element/compound, declare/local with -i -l -u -a -A -x -r and +attr, export, readonly, unset, for, read, printf -v, (( )), ${v:=}, getopts, mapfile, temporary-assignment prefixes on builtins, eval, functions and external commands, declare -g) with function calls nested to depth 3; after every step a probe function records the full state of four names through an external argv dumper and what a child process receives; the probe streams of brush and bash must be identical, and a name that became readonly at top level must never change afterwards.",
    note="bash 5.2.15 reference; attribute letters as a set, associative keys sorted; open findings C09-F1..F5 (writes to readonly names, exported arrays, local shadowing a temporary assignment / exported name, array redeclaration, export of unset names) and the integer attribute (C07-F1) are not generated", ref="5 C09")
+CHECKS["C10"] = dict(technique="batched differential runtime monitor with external descriptor probes (wr: where output lands / what can be read / fd table seen; fdprobe: the shell's own table before and after; dumpf: file bytes) + definitional checks (restoration, noclobber, literal here-documents)",
+   text="Redirection lists of length 1-2 (all ordered pairs over 37 redirections, sampled per carrier in quick) and random lists of 3-4, attached to 13 carriers (external probe, prefix position, function, builtin, brace group, subshell, if, while, function definition, nested groups, exec, read), with and without noclobber, plus here-documents over 18 body-line kinds x 5 delimiter forms x <<-/<< x 7 contexts. Each execution of the real brush is compared with bash on where the probe's lines landed, the fd table the command saw, statuses, file bytes and the shell's descriptor table afterwards; independently of bash the table after must equal the table before unless the command was exec, noclobber must protect existing files and quoted-delimiter here-documents must arrive byte-exact.",
+   note="bash 5.2.15 reference; shell diagnostics not compared (marker lines only); open findings C10-F1..F5: close of fd 0-2 for externals, failing redirect on compound aborts, &> under noclobber, exec masked by an outer redirection, backslash-newline in unquoted here-documents", ref="5 C10")
 NA = {}
 
 def main():
